@@ -368,19 +368,21 @@ Section Clause.
   Variable rec : list etok -> res (out * list etok).
 
   (* CONTAINS / HAS...: values after the term, one POSITION(...) test per value *)
-  Fixpoint cloop (n : nat) (conj term acc : out) (first : bool) (ts : list etok) : res (out * list etok) :=
+  Fixpoint cloop (n : nat) (conj term acc : out) (first : bool) (cnt : nat) (ts : list etok) : res (out * list etok) :=
     match n with
     | O => Fuel
     | S n' =>
         match is_comma ts with
-        | None => Ok (acc, ts)
+        | None =>
+            (* repaired code: a list of several values is written in parentheses *)
+            Ok (if fixd && Nat.leb 2 cnt then fx "(" [Op "("] +++ acc +++ fx ")" [Op ")"] else acc, ts)
         | Some ts1 =>
             match rec ts1 with
             | Ok (value, ts2) =>
                 cloop n' conj term
                       (acc +++ (if first then onil else conj) +++ fx "POSITION(" [Wd "POSITION"; Op "("] +++ value
                            +++ fx " IN " [Wd "IN"] +++ term +++ fx ") > 0" [Op ")"; Op ">"; TNum [48]])
-                      false ts2
+                      false (S cnt) ts2
             | Err => Err
             | Fuel => Fuel
             end
@@ -434,7 +436,7 @@ Section Clause.
           let conj := if in_list u ["CONTAINSALL"; "HASALL"] then fx " AND " [Wd "AND"] else fx " OR " [Wd "OR"] in
           match rec t2 with
           | Ok (term, t3) =>
-              match cloop n conj term onil true t3 with
+              match cloop n conj term onil true 0 t3 with
               | Ok (r, t4) => match is_rp t4 with Some t5 => Ok (r, t5) | None => Err end
               | e => e
               end
